@@ -43,10 +43,14 @@ type vfChunkReader struct {
 	b     []byte
 	chunk int
 	taken int
+	end   error // what Read returns once the bytes are used up (nil = io.EOF)
 }
 
 func (r *vfChunkReader) Read(p []byte) (int, error) {
 	if len(r.b) == 0 {
+		if r.end != nil {
+			return 0, r.end
+		}
 		return 0, io.EOF
 	}
 	n := len(p)
@@ -300,7 +304,7 @@ func vfGenC08(t *rapid.T) vfCaseC08 {
 	e := &vfC08Entries[ei]
 	c := vfCaseC08{Entry: e.Name}
 	if e.Part == "frame" {
-		c.Chunk = rapid.SampledFrom([]int{0, 0, 1, 3, 4, 5, 1000, -1, -2}).Draw(t, "chunk")
+		c.Chunk = rapid.SampledFrom([]int{0, 0, 1, 3, 4, 5, 1000, -1, -2, -3}).Draw(t, "chunk")
 	}
 	mode := rapid.IntRange(0, 11).Draw(t, "mode")
 	if mode == 0 {
@@ -456,6 +460,9 @@ func vfC08Frame(ctx *vfCtx, e *vfC08Entry, c *vfCaseC08) string {
 	taken := func() int { return cr.taken }
 	r = cr
 	switch c.Chunk {
+	case -3:
+		// the stream does not end, it breaks: a transport error instead of EOF (seed C20-e)
+		cr.chunk, cr.end = 0, errVfCut
 	case -1:
 		bb := bytes.NewBuffer(append([]byte{}, c.Input...))
 		r, taken = bb, func() int { return len(c.Input) - bb.Len() }
@@ -586,6 +593,7 @@ func vfRunC08Sys(ctx *vfCtx, c vfCaseC08Sys) {
 			if e.Part == "frame" {
 				run(vfCaseC08{Entry: e.Name, Input: append([]byte{}, in[:cut]...), Flags: flags, Mut: "truncate", Chunk: -1})
 				run(vfCaseC08{Entry: e.Name, Input: append([]byte{}, in[:cut]...), Flags: flags, Mut: "truncate", Chunk: 1})
+				run(vfCaseC08{Entry: e.Name, Input: append([]byte{}, in[:cut]...), Flags: flags, Mut: "truncate", Chunk: -3})
 			}
 		}
 		sort.Ints(lens)
